@@ -256,7 +256,12 @@ def extract():
 
 
 def generate() -> dict:
-    info = extract()
+    try:
+        info = extract()
+    except Exception as e:  # noqa: BLE001 - the source no longer has a shape we can read: make the obligation fail
+        info = {"found_to_onnx_model": False, "found_build": False, "n_calls": 0, "known_params": {},
+                "to_onnx_model_ir": [("other",)], "build_ir": [("other",)], "full_check": False,
+                "concrete_io": False, "error": f"{type(e).__name__}: {e}"}
     lines = [
         HEADER.format(src="src/spox/_graph.py (Graph.to_onnx_model), src/spox/_public.py (build)",
                       tool="translator/build_flags.py"),
